@@ -82,6 +82,14 @@ def to_expr(e, env, arrays=None):
             return ('nan',) if a == num(0) else INF          # 0./0. and 1./0. as the kernels spell NaN and infinity
         if op == "*" and ((a == INF and b == num(0)) or (b == INF and a == num(0))):
             return ('nan',)
+        if op == "/" and _int_typed(e):
+            # C integer division truncates: exact only when it folds to an integer constant
+            if a[0] == 'num' and b[0] == 'num' and b[1] != 0 and Fraction(a[1]) % Fraction(b[1]) == 0:
+                return num(Fraction(a[1]) / Fraction(b[1]))
+            # a / b == (a - a % b) / b in C for every sign (6.5.5p6); when a is itself `X - X % b` the division is exact
+            if a[0] == 'sub' and a[2] == ('call', 'mod', (a[1], b)):
+                return ('div', a, b)
+            return ('div', ('sub', a, ('call', 'mod', (a, b))), b)
         if op in m:
             return (m[op], a, b)
         if op in ("<", "<=", ">", ">=", "==", "!="):
@@ -106,6 +114,11 @@ def to_expr(e, env, arrays=None):
     if k == "StringLiteral":
         return ('sym', 'str:' + str(e.get("value", ""))[:20])
     raise Undecided(f"C expression {k}")
+
+
+def _int_typed(e):
+    q = e.get("type", {}).get("qualType", "")
+    return bool(q) and not any(t in q for t in ("double", "float", "*")) and any(t in q for t in ("int", "long", "short", "char", "size_t"))
 
 
 def _aread(name, idx, env, arrays):
